@@ -1,14 +1,32 @@
 //! Remote endpoints the driver controls (shared by all executions of one run).
 use litep2p::{
-    config::ConfigBuilder, crypto::ed25519::Keypair, transport::tcp::config::Config as TcpConfig, Litep2p,
+    config::ConfigBuilder,
+    crypto::ed25519::Keypair,
+    transport::{quic::config::Config as QuicConfig, tcp::config::Config as TcpConfig, websocket::config::Config as WsConfig},
+    Litep2p,
 };
 use multiaddr::{Multiaddr, Protocol};
 use std::{net::SocketAddr, time::Duration};
 use tokio::{io::AsyncWriteExt, sync::mpsc};
 
+/// Which transport an address belongs to.
+pub fn transport_of(a: &Multiaddr) -> &'static str {
+    if a.iter().any(|p| matches!(p, Protocol::QuicV1)) {
+        "quic"
+    } else if a.iter().any(|p| matches!(p, Protocol::Ws(_) | Protocol::Wss(_))) {
+        "ws"
+    } else {
+        "tcp"
+    }
+}
+
 pub struct Env {
-    /// Full addresses (`/ip4/127.0.0.1/tcp/<port>/p2p/<peer>`) of healthy remote nodes.
-    healthy: Vec<Multiaddr>,
+    /// Full addresses (`<socket part>/p2p/<peer>`) of healthy remote nodes, one per transport.
+    healthy: Vec<Vec<Multiaddr>>,
+    /// A bound UDP socket nobody reads (QUIC dead endpoint) and one that answers every datagram with junk.
+    pub udp_dead: Multiaddr,
+    pub udp_garbage: Multiaddr,
+    _udp_dead_socket: std::net::UdpSocket,
     /// Command channels of the nodes that dial the transport under test.
     dialers: Vec<mpsc::UnboundedSender<Multiaddr>>,
     pub refused: Multiaddr,
@@ -20,7 +38,8 @@ pub struct Env {
 pub fn socket_of(a: &Multiaddr) -> SocketAddr {
     let mut it = a.iter();
     match (it.next(), it.next()) {
-        (Some(Protocol::Ip4(ip)), Some(Protocol::Tcp(port))) => SocketAddr::new(ip.into(), port),
+        (Some(Protocol::Ip4(ip)), Some(Protocol::Tcp(port))) | (Some(Protocol::Ip4(ip)), Some(Protocol::Udp(port))) =>
+            SocketAddr::new(ip.into(), port),
         _ => panic!("socket address {a}"),
     }
 }
@@ -31,6 +50,15 @@ fn node() -> Litep2p {
         .with_tcp(TcpConfig {
             listen_addresses: vec!["/ip4/127.0.0.1/tcp/0".parse().unwrap()],
             reuse_port: false,
+            ..Default::default()
+        })
+        .with_websocket(WsConfig {
+            listen_addresses: vec!["/ip4/127.0.0.1/tcp/0/ws".parse().unwrap()],
+            reuse_port: false,
+            ..Default::default()
+        })
+        .with_quic(QuicConfig {
+            listen_addresses: vec!["/ip4/127.0.0.1/udp/0/quic-v1".parse().unwrap()],
             ..Default::default()
         })
         .with_keep_alive_timeout(Duration::from_secs(2))
@@ -49,8 +77,7 @@ impl Env {
         let mut healthy = vec![];
         for _ in 0..n_healthy {
             let mut n = node();
-            let addr = n.listen_addresses().next().unwrap().clone();
-            healthy.push(addr);
+            healthy.push(n.listen_addresses().cloned().collect::<Vec<_>>());
             tokio::spawn(async move { while n.next_event().await.is_some() {} });
         }
         let mut dialers = vec![];
@@ -112,11 +139,25 @@ impl Env {
                 }
             });
         }
-        Env { healthy, dialers, refused, blackhole, garbage, _refused_socket: sock }
+        let dead = std::net::UdpSocket::bind("127.0.0.1:0").unwrap();
+        let udp_dead: Multiaddr = format!("/ip4/127.0.0.1/udp/{}/quic-v1", dead.local_addr().unwrap().port()).parse().unwrap();
+        let junk = tokio::net::UdpSocket::bind("127.0.0.1:0").await.unwrap();
+        let udp_garbage: Multiaddr = format!("/ip4/127.0.0.1/udp/{}/quic-v1", junk.local_addr().unwrap().port()).parse().unwrap();
+        tokio::spawn(async move {
+            let mut buf = [0u8; 2048];
+            while let Ok((_, from)) = junk.recv_from(&mut buf).await {
+                let _ = junk.send_to(b"\xc0\x00\x00\x00\x01 not a quic packet at all", from).await;
+            }
+        });
+        Env { healthy, dialers, refused, blackhole, garbage, _refused_socket: sock, udp_dead, udp_garbage, _udp_dead_socket: dead }
     }
 
-    pub fn healthy_addr(&self, n: usize) -> Multiaddr {
-        self.healthy[n % self.healthy.len()].clone()
+    pub fn healthy_addr(&self, transport: &str, n: usize) -> Multiaddr {
+        self.healthy[n % self.healthy.len()]
+            .iter()
+            .find(|a| transport_of(a) == transport)
+            .unwrap_or_else(|| panic!("healthy node without a {transport} listener"))
+            .clone()
     }
 
     pub fn dialer_dial(&self, n: usize, target: Multiaddr) {
